@@ -805,7 +805,8 @@ Print Assumptions C03_fresh_its_route.
 
 (** the code as it is: when _explicit_h raises (a group with more hydrogens to give than to take), the first read of
     its_list raises and every later read silently returns the GLUED graphs, without the explicit-hydrogen stage — the
-    cache was filled before the stage ran.  Replayed on the implementation (notes/C03.md).  Not a C03 violation (the
+    cache was filled before the stage ran.  Compared with the implementation read by read on every run (families script-raw,
+    synthetic-raw: hand-written rules whose group has more hydrogens to give than to take).  Not a C03 violation (the
     graphs returned are the rule's instances in count form; rules prepared from reaction templates never raise), recorded
     as an observation about stale state after an exception *)
 Theorem C03_reads_after_crash : forall (inp : rin) (rc : its) (l r : molg),
